@@ -18,18 +18,26 @@ ACCEPTED = [
 ]
 
 
-def strip_inst(prefix, L, strip, owned, sub):
-    return Instance("%s_strip_L%d_p%d_%s" % (prefix, L, strip, "owned" if owned else "borrowed"), "patch",
-                    "strip_case::<%d>(%d, %s)" % (L, strip, str(owned).lower()), unwind=L + 6, unwindset={"memcmp.0": 8}, features=True, cap=4,
-                    mem_gb=8, timeout_s=1800, sub=sub, must_cover=["safe name with components left"],
-                    params=dict(name_bytes=L, alphabet="a . /", strip=strip, cow="Owned" if owned else "Borrowed"))
+def strip_inst(prefix, L, strip, owned, sub, pattern=None):
+    """prefix c16: the stripped names bytewise (mode 1); c19: the unsafe-name check (mode 2).
+    pattern: None = every byte symbolic over {a . /}; else a string over 'x' (symbolic byte from {a .}) and '/' (constant)."""
+    mode = 1 if prefix == "c16" else 2
+    if pattern is None:
+        mask, tag, alpha = 0xFFFFFFFF, "L%d" % L, "a . /"
+    else:
+        L = len(pattern)
+        mask, tag, alpha = sum(1 << i for i, c in enumerate(pattern) if c == "/"), pattern.replace("/", "s"), "a . (separators fixed by the pattern)"
+    return Instance("%s_strip_%s_p%d_%s" % (prefix, tag, strip, "owned" if owned else "borrowed"), "patch",
+                    "strip_case_m::<%d>(%d, %d, %d, %s)" % (L, mask, mode, strip, str(owned).lower()), unwind=L + 6, unwindset={"memcmp.0": 8}, features=True, cap=4,
+                    mem_gb=8, timeout_s=1800, sub=sub, must_cover=["components left after a real strip"] if mode == 1 and strip > 0 and L > 2 * strip else [],
+                    params=dict(name_bytes=L, name_pattern=pattern or "all symbolic", alphabet=alpha, strip=strip, cow="Owned" if owned else "Borrowed"))
 
 
 def spec(tier, seed):
     q = tier == "quick"
     inst = []
-    for (L, st, ow) in ([(5, 1, False), (5, 0, False), (5, 2, True), (4, 1, True)] if q else
-                        [(L, st, ow) for L in (3, 5, 6) for st in (0, 1, 2) for ow in (False, True)]):
+    for (L, st, ow) in ([(4, 1, False), (4, 0, False), (3, 2, True), (3, 1, True)] if q else
+                        [(L, st, ow) for L in (3, 4, 5) for st in (0, 1, 2) for ow in (False, True)]):
         inst.append(strip_inst("c19", L, st, ow, "C19/C16 strip + unsafe-name check against a bytewise reference"))
     for nm, text, strip in REFUSED:
         inst.append(Instance("c19_refused_%s" % nm, "parser", "t_refused(%s, %d)" % (bytes_lit(text), strip), unwind=max(len(text), 60) + 4,
@@ -55,3 +63,8 @@ def spec(tier, seed):
         "explanation": "the solver decides, for every name over the alphabet and every strip level, that strip drops exactly N components and that the unsafe-name check agrees with a bytewise reference; "
                        "concrete end-to-end runs show parse_patch turns an unsafe name into an error and keeps accepting names that stripping made safe",
     }
+
+
+def replay_candidate(v, work, log):
+    from .. import scenarios
+    return scenarios.replay_for("C19", v, work, log)
